@@ -272,7 +272,10 @@ func TestVerif_C14(t *testing.T) {
 				// names around every power-of-two length (lesson of seeded change C14-jF: a length bitmask that wraps at 64)
 				strings.Repeat("n", choose(rng, []int{31, 32, 33, 62, 63, 64, 65, 66, 100, 127, 128, 129, 200, 255, 256, 257, 300})),
 				"x-long-" + strings.Repeat("m", choose(rng, []int{24, 25, 26, 55, 56, 57, 58, 59, 120, 121, 122, 249, 250})),
-				"accept", "accept-language", "content-language", "range", "x-m-aa", "x-m-ab", "x-m-b", "x-m-ba", "x-m-c", "x-m-ca", "x-m-d", "x-m-e", "x-m-f", "x-m-g", "x-m-h"}
+				"accept", "accept-language", "content-language", "range",
+				// names that do not start with a letter (lesson of seeded change C14-n): digits and every special token byte
+				"1st-party-id", "9", "_csrf-token", "!bang", "~tilde", "-dash", "*star", "#hash", "$dollar", "%pct", "&amp", "'quote", "+plus", ".dot", "^caret", "`tick", "|pipe",
+				"x-m-aa", "x-m-ab", "x-m-b", "x-m-ba", "x-m-c", "x-m-ca", "x-m-d", "x-m-e", "x-m-f", "x-m-g", "x-m-h"}
 			seen := map[string]bool{}
 			var names []string
 			for len(names) < nNames {
